@@ -417,7 +417,15 @@ func keyCase(c *core.Ctx, r *core.Rand, i int) {
 		}
 		for _, f := range []fmtSpec{{"PKCS1", kmipclient.PKCS1}, {"PKCS8", kmipclient.PKCS8}, {"Transparent", kmipclient.Transparent}} {
 			label := fmt.Sprintf("RSA-%d private key as %s at 1.%d via %s", key.N.BitLen(), f.name, minor, enc)
-			req := cl.Register().WithKeyFormat(f.kf).RsaPrivateKey(key, usage).RequestPayload()
+			regKey := key
+			if f.name == "Transparent" && i%2 == 1 {
+				// a valid key that was never Precompute()d (rebuilt from n, e, d, p, q): equal to the original all the same
+				regKey = &rsa.PrivateKey{PublicKey: rsa.PublicKey{N: new(big.Int).Set(key.N), E: key.E}, D: new(big.Int).Set(key.D),
+					Primes: []*big.Int{new(big.Int).Set(key.Primes[0]), new(big.Int).Set(key.Primes[1])}}
+				label += " (key without precomputed CRT values)"
+				c.Count("rsa.without-precomputed-crt", 1)
+			}
+			req := cl.Register().WithKeyFormat(f.kf).RsaPrivateKey(regKey, usage).RequestPayload()
 			if req == nil || req.Object == nil {
 				fail("C14:register-build:rsa-private:"+f.name, label+": builder produced no object", nil)
 				continue
@@ -893,7 +901,7 @@ func Spec() *core.Spec {
 			"part 2: 19 object kinds/formats with every subset (<= 12 removable nodes) or random subsets of their optional nodes removed, wrapped keys and key-format mismatches; every accessor is called on whatever still decodes. " +
 			"transport buffer overwritten after decoding; 3-8 objects held across later messages of one stream; a builder refusing a named key is a violation; distinct = distinct (key, format, version, encoding) transports and distinct degraded tree shapes",
 		Assumptions: []string{"keys smaller than production size exercise the same code paths; a few 1024-bit moduli are included", "mathematical equality = Equal() of crypto/rsa and crypto/ecdsa, byte equality for symmetric keys and secrets"},
-		Required: []string{"transports", "accessor_calls", "held_objects", "degraded_decodable", "degraded_accessor_calls", "rsa.d-leading-zero-byte", "rsa.d-starts-hi", "rsa.d-starts-lo", "ec.P-224", "ec.P-256", "ec.P-384", "ec.P-521",
+		Required: []string{"transports", "accessor_calls", "held_objects", "rsa.without-precomputed-crt", "degraded_decodable", "degraded_accessor_calls", "rsa.d-leading-zero-byte", "rsa.d-starts-hi", "rsa.d-starts-lo", "ec.P-224", "ec.P-256", "ec.P-384", "ec.P-521",
 			"ec.d-leading-zero-byte", "ec.d-full-width.P-521", "ec.d-full-width.P-256", fmt.Sprintf("ec.transparent.format-%d", kmip.KeyFormatTypeTransparentECDSAPrivateKey), fmt.Sprintf("ec.transparent.format-%d", kmip.KeyFormatTypeTransparentECPrivateKey)},
 		Families: []core.Family{
 			{Name: "keys", N: nOf(1440, 72000), Run: keyCase},
